@@ -281,7 +281,20 @@ class RZILTransformer(Transformer):
                     Assignment("set_return_val", AssignmentType.ASSIGN, ret_val, src)
                 )
             )
+        if isinstance(items[0], Token) and items[0].type in [
+            "GOTO",
+            "CONTINUE",
+            "BREAK",
+        ]:
+            raise NotImplementedError(f"{items[0]} statements are not supported.")
         return items  # Pass them upwards
+
+    def labeled_stmt(self, items):
+        raise NotImplementedError("Labels and case statements are not supported.")
+
+    def expr(self, items):
+        # This rule is only not inlined for: expr "," assignment_expr
+        raise NotImplementedError("Comma expressions are not supported.")
 
     def relational_expr(self, items):
         self.ext.set_token_meta_data("relational_expr")
